@@ -6,7 +6,7 @@ the check is a function of NEAREST and of per-project sets, hence independent of
 the shared memo `cache` only ever holds correct answers.  That is the invariant CacheOK proved here."""
 import os
 from pyvc.dsl import (contract, invariant, inline, ite, is_tuple, is_none, is_int, is_str, is_instance, forall_int,
-                      exists_int, uf, old, klass, field, same_value)
+                      exists_int, uf, old, klass, field, same_value, forall_key)
 
 MD = "kconfcheck.check_deprecated_options"
 
@@ -48,7 +48,7 @@ class C__is_project_root:
 
 def cache_ok(cache):
     """every memoised answer is the right one"""
-    return all(same_value(cache[k], NEAREST(k)) for k in cache)
+    return forall_key(cache, lambda k: same_value(cache[k], NEAREST(k)))
 
 
 def chain_ok(checked, path):
